@@ -22,7 +22,7 @@ RULE = ("seeded random histories: 1-2 built arrays (shapes with empty rows), the
         "in scope; each history is run once as is and once per (position, array, read kind) with one extra read inserted (all positions; seeded choice of "
         "array and kind; kinds: tolist str ravel sum ufunc concatenate iter int-row | len shape size discarded-selection); compared: every read output and the "
         "final content of every array; non-trivial = the history contains an assignment and a selection; distinct = distinct (history, insertion)")
-MAT_READS = ["tolist", "str", "ravel", "sum", "ufunc", "concatenate", "iter", "introw", "mean", "max", "gtcol", "mulcol", "subcol", "sort", "where", "nonzero", "sum0", "colcounts", "padded", "accumulate"]
+MAT_READS = ["tolist", "str", "ravel", "sum", "ufunc", "concatenate", "iter", "introw", "mean", "max", "gtcol", "mulcol", "subcol", "sort", "where", "nonzero", "sum0", "colcounts", "padded", "accumulate", "nonzero_m", "elemarr"]
 PEEKS = ["len", "shape", "size", "peeksel"]
 BASES = [[[0, 1, 2], [3, 4], [5], [6, 7]], [[], [0, 1], [2], []], [[0, 1, 2, 3], [4, 5, 6], [7, 8, 9, 10]], [[0], [], [1, 2]]]
 
@@ -78,6 +78,14 @@ def read_result(x, kind):
         if kind == "colcounts": return kl(x.col_counts()) if n and max(np.asarray(x.lengths).tolist()) > 0 else None
         if kind == "padded": return kl(x.as_padded_matrix()) if n and max(np.asarray(x.lengths).tolist()) > 0 else None
         if kind == "accumulate": return ra_obs(np.add.accumulate(x, axis=-1))
+        if kind == "nonzero_m": return [kl(a) for a in x.nonzero()]          # the method spelling
+        if kind == "elemarr":       # element reads through index ARRAYS (one negative column); the index arrays are the caller's and must be left alone
+            lens = np.asarray(x.lengths).tolist(); rows = np.array([i for i, l in enumerate(lens) if l > 0], dtype=int)
+            if not len(rows): return None
+            cols = np.array([-1 if k % 2 == 0 else 0 for k in range(len(rows))], dtype=int)
+            r0, c0 = rows.copy(), cols.copy()
+            v = x[rows, cols]
+            return [kl(v), bool((rows == r0).all() and (cols == c0).all())]
     return None
 
 
@@ -124,7 +132,9 @@ def model_results(ops, contents):
     for o, c in zip(reads, contents):
         kind = o[2]
         if c is None or kind in ("tolist", "str", "ravel", "iter", "introw"): out.append([None, c]); continue
-        out.append([guarded(lambda: read_result(RaggedArray(c, dtype=float), kind)), c])
+        exp = guarded(lambda: read_result(RaggedArray(c, dtype=float), kind))
+        if kind == "elemarr" and isinstance(exp, list): exp = [exp[0], True]          # the caller's index arrays are never written to
+        out.append([exp, c])
     return out
 
 
